@@ -13,6 +13,8 @@ MarshalReason(e) ==
   ELSE IF e.bytes # Enc(c, v) THEN "layout"
   ELSE IF e.back.res # "ok" THEN "roundtrip_rejected"
   ELSE IF e.back.fields # Norm(c, v) THEN "roundtrip_value"
+  ELSE IF e.again # e.bytes THEN "marshal_result_not_owned_by_caller"     \* the caller wrote over what Marshal returned; the value marshalled again must give the same bytes
+  ELSE IF ~e.canary_ok THEN "shared_state_changed_by_earlier_use"
   ELSE ""
 UnmarshalReason(e) ==
   LET c == e.codec  b == e.bytes IN
@@ -21,6 +23,7 @@ UnmarshalReason(e) ==
   ELSE IF e.fresh.res # "ok" \/ e.used.res # "ok" THEN "sufficient_input_rejected"
   ELSE IF e.fresh.fields # Dec(c, b) THEN "decoded_fields"
   ELSE IF e.used.fields # e.fresh.fields THEN "depends_on_previous_receiver_state"
+  ELSE IF ~e.canary_ok THEN "shared_state_changed_by_earlier_use"
   ELSE ""
 SweepReason(e) ==
   IF e.panics # 0 THEN "sweep_panic"
